@@ -265,6 +265,10 @@ Global Opaque lk.
 (* ------------------------------------------------------------------ shapes *)
 
 Definition vslot (n : node) : Prop := n = NEmpty \/ exists v, n = NValue v.
+Lemma vslot_value v : vslot (NValue v).
+Proof. right. eexists. reflexivity. Qed.
+Lemma vslot_empty : vslot NEmpty.
+Proof. left. reflexivity. Qed.
 
 Inductive wfn : node -> Prop :=
 | wfn_empty : wfn NEmpty
@@ -318,7 +322,7 @@ Lemma wfn_short_child nk c r :
 Proof.
   intros Hw Hk. inversion Hw; subst.
   - pose proof (valid_key_prefix_end _ _ H0 Hk) as ->.
-    split; [left; split; [reflexivity|right; eauto]|]. split; [apply valid_key_nonempty; assumption|congruence].
+    split; [left; split; [reflexivity|apply vslot_value]|]. split; [apply valid_key_nonempty; assumption|congruence].
   - assert (r <> []).
     { intros ->. rewrite app_nil_r in Hk. exact (valid_key_not_nibbles _ Hk H1). }
     destruct (valid_key_app_inv _ _ Hk H) as [_ Hr]. split; [right; auto|auto].
@@ -478,3 +482,579 @@ Qed.
 
 Lemma count_empty17 : count empty17 = 0%nat.
 Proof. reflexivity. Qed.
+
+(* ------------------------------------------------------------------ helpers for the branch built by insert *)
+
+(* node component of insert(nil, prefix, key, value) *)
+Definition inil (k : list N) (c : node) : node :=
+  match k with [] => c | _ :: _ => NShort k c end.
+
+Lemma insert_nil_fst pre k c : fst (insert_nil pre k c) = inil k c.
+Proof. destruct k; reflexivity. Qed.
+
+Definition wrap (p : list N) (n : node) : node :=
+  match p with [] => n | _ :: _ => NShort p n end.
+
+Lemma lk_wrap p n k : lk (wrap p n) k = match strip p k with Some r => lk n r | None => None end.
+Proof. destruct p; [reflexivity|apply lk_short]. Qed.
+
+Lemma lk_inil k c r : lk (inil k c) r = lk (NShort k c) r.
+Proof. destruct k; [rewrite lk_short; reflexivity|reflexivity]. Qed.
+
+Lemma nth_error_empty17 i c : nth_error empty17 i = Some c -> c = NEmpty.
+Proof. intros H. apply nth_error_In in H. apply repeat_spec in H. exact H. Qed.
+
+Lemma lk_empty17 k : lk (NFull empty17) k = None.
+Proof.
+  destruct k as [|x r]; [reflexivity|]. rewrite lk_full.
+  destruct (nth_error empty17 (N.to_nat x)) as [c|] eqn:E; [|reflexivity].
+  apply nth_error_empty17 in E. subst. apply lk_empty.
+Qed.
+
+Lemma wfn_empty17 : wfn (NFull empty17).
+Proof.
+  apply wfn_full; [reflexivity| |].
+  - intros i c H _. apply nth_error_empty17 in H. subst. constructor.
+  - intros c H. apply nth_error_empty17 in H. left. exact H.
+Qed.
+
+Lemma short_as_slot a n2 nv :
+  wfn (NShort (a :: n2) nv) -> exists kr, valid_key (a :: kr) /\ wfpos (inil n2 nv) kr.
+Proof.
+  intros Hw. inversion Hw; subst.
+  - exists n2. split; [assumption|]. apply valid_key_cons in H0 as [[-> ->]|[Ha Hn]].
+    + left. split; [reflexivity|apply vslot_value].
+    + right. split; [assumption|]. destruct n2; [destruct Hn|]. apply wfn_leaf. assumption.
+  - inversion H1; subst. exists (n2 ++ [16]). split.
+    + apply valid_key_cons. right. split; [assumption|apply valid_key_app; assumption].
+    + right. split; [apply valid_key_app; assumption|].
+      destruct n2; [assumption|]. apply wfn_ext; [assumption|discriminate|assumption].
+Qed.
+
+Lemma can_short_as_slot a n2 nv :
+  can (NShort (a :: n2) nv) ->
+  inil n2 nv <> NEmpty /\
+  ((a = 16 /\ vslot (inil n2 nv)) \/ (a < 16 /\ can (inil n2 nv))).
+Proof.
+  intros Hw. inversion Hw; subst.
+  - apply valid_key_cons in H0 as [[-> ->]|[Ha Hn]].
+    + split; [discriminate|]. left. split; [reflexivity|apply vslot_value].
+    + destruct n2; [destruct Hn|]. split; [discriminate|]. right. split; [assumption|]. apply can_leaf. assumption.
+  - inversion H1; subst. destruct n2; (split; [discriminate|]); right; (split; [assumption|]); [assumption|].
+    apply can_ext; [assumption|discriminate|assumption].
+Qed.
+
+Definition ins_post (n : node) (key v : list N) (d : bool) (n' : node) : Prop :=
+  wfpos n' key /\ n' <> NEmpty /\ lk n' key = Some v /\
+  (forall k', k' <> key -> lk n' k' = lk n k') /\
+  (d = false <-> lk n key = Some v) /\ (d = false -> n' = n) /\
+  (canpos n key -> canpos n' key) /\
+  (forall cs, n = NFull cs -> exists cs', n' = NFull cs').
+
+Lemma ins_post_unchanged n key v :
+  wfpos n key -> lk n key = Some v -> ins_post n key v false n.
+Proof.
+  intros Hp Hl. repeat split; auto.
+  - intros ->. rewrite lk_empty in Hl. discriminate.
+  - eauto.
+Qed.
+
+Lemma to_nat_lt17 x : x <= 16 -> (N.to_nat x < length empty17)%nat.
+Proof. intros H. change (length empty17) with 17%nat. lia. Qed.
+
+Lemma valid_key_hd_le x r : valid_key (x :: r) -> x <= 16.
+Proof. intros H. apply valid_key_cons in H as [[-> _]|[? _]]; lia. Qed.
+
+Lemma branch_post p a n2 nv b k2 v :
+  wfn (NShort (p ++ a :: n2) nv) -> valid_key (p ++ b :: k2) -> a <> b ->
+  exists cs1 cs2,
+    set_child empty17 a (inil n2 nv) = Some cs1 /\
+    set_child cs1 b (inil k2 (NValue v)) = Some cs2 /\
+    ins_post (NShort (p ++ a :: n2) nv) (p ++ b :: k2) v true (wrap p (NFull cs2)).
+Proof.
+  intros Hw Hk Hab. unfold set_child.
+  destruct (wfn_short_drop p (a :: n2) nv Hw ltac:(discriminate)) as [Hp Hw1].
+  destruct (valid_key_app_inv p (b :: k2) Hk ltac:(discriminate)) as [_ Hk1].
+  destruct (short_as_slot _ _ _ Hw1) as (kra & Hka & Hsa).
+  destruct (set_nth_some (N.to_nat a) (inil n2 nv) empty17) as [cs1 Hs1].
+  { apply to_nat_lt17. apply (valid_key_hd_le _ _ Hka). }
+  destruct (set_nth_spec _ _ _ _ Hs1) as [L1 Hn1].
+  destruct (set_nth_some (N.to_nat b) (inil k2 (NValue v)) cs1) as [cs2 Hs2].
+  { rewrite L1. apply to_nat_lt17. apply (valid_key_hd_le _ _ Hk1). }
+  destruct (set_nth_spec _ _ _ _ Hs2) as [L2 Hn2].
+  exists cs1, cs2. split; [assumption|]. split; [assumption|].
+  assert (Hwc2 : wfpos (inil k2 (NValue v)) k2).
+  { apply valid_key_cons in Hk1 as [[_ ->]|[_ Hk2]].
+    - left. split; [reflexivity|apply vslot_value].
+    - right. split; [assumption|]. destruct k2; [destruct Hk2|]. apply wfn_leaf. assumption. }
+  assert (Hw1' : wfn (NFull cs1)) by (eapply wfn_full_set; [apply wfn_empty17|exact Hka|exact Hsa|exact Hs1]).
+  assert (Hw2 : wfn (NFull cs2)) by (eapply wfn_full_set; [exact Hw1'|exact Hk1|exact Hwc2|exact Hs2]).
+  assert (Hlk : forall x r, lk (NFull cs2) (x :: r) =
+            if N.eqb x b then lk (NShort k2 (NValue v)) r
+            else if N.eqb x a then lk (NShort n2 nv) r else None).
+  { intros x r. rewrite (lk_full_set _ _ _ _ x r Hs2), (lk_full_set _ _ _ _ x r Hs1), !lk_inil, lk_empty17.
+    reflexivity. }
+  assert (Hold : forall k, lk (NShort (p ++ a :: n2) nv) k =
+            match strip p k with
+            | Some (x :: r) => if N.eqb x a then lk (NShort n2 nv) r else None
+            | _ => None
+            end).
+  { intros k. rewrite !lk_short, strip_app. destruct (strip p k) as [[|x r]|]; try reflexivity.
+    simpl. rewrite (N.eqb_sym a x). destruct (N.eqb x a); reflexivity. }
+  assert (Hnew : forall k, lk (wrap p (NFull cs2)) k =
+            match strip p k with
+            | Some (x :: r) => lk (NFull cs2) (x :: r)
+            | _ => None
+            end).
+  { intros k. rewrite lk_wrap. destruct (strip p k) as [[|x r]|]; reflexivity. }
+  assert (Hba : N.eqb b a = false) by (apply N.eqb_neq; congruence).
+  unfold ins_post. repeat split.
+  - right. split; [assumption|]. destruct p; [exact Hw2|]. simpl.
+    apply wfn_ext; [assumption|discriminate|assumption].
+  - destruct p; discriminate.
+  - rewrite Hnew, strip_app_same, Hlk, N.eqb_refl, lk_leaf, bytes_eqb_refl. reflexivity.
+  - intros k' Hne. rewrite Hnew, Hold. destruct (strip p k') as [[|x r]|] eqn:E; try reflexivity.
+    rewrite Hlk. destruct (N.eqb_spec x b) as [->|Nb]; [|reflexivity].
+    rewrite Hba, lk_leaf. destruct (bytes_eqb r k2) eqn:B; [|reflexivity].
+    apply bytes_eqb_eq in B. apply strip_some in E. congruence.
+  - discriminate.
+  - rewrite Hold, strip_app_same, Hba. discriminate.
+  - discriminate.
+  - intros [[E _]|[_ [E|Hcan]]]; [destruct p; discriminate|discriminate|].
+    right. split; [assumption|]. right.
+    destruct (can_short_drop p (a :: n2) nv Hcan ltac:(discriminate)) as [_ Hcan1].
+    destruct (can_short_as_slot _ _ _ Hcan1) as [Hne1 Hslot1].
+    assert (Hcf : can (NFull cs2)).
+    { inversion Hw2; subst. apply can_full; [assumption| |assumption|].
+      - intros i c Hc Hi. rewrite Hn2 in Hc. destruct (Nat.eqb_spec i (N.to_nat b)) as [->|Nb].
+        + inversion Hc; subst. apply valid_key_cons in Hk1 as [[-> _]|[_ Hk2]]; [lia|].
+          destruct k2; [destruct Hk2|]. right. apply can_leaf. assumption.
+        + rewrite Hn1 in Hc. destruct (Nat.eqb_spec i (N.to_nat a)) as [->|Na].
+          * inversion Hc; subst. destruct Hslot1 as [[-> _]|[_ ?]]; [lia|auto].
+          * left. eapply nth_error_empty17; eassumption.
+      - assert (Ea : nth_error empty17 (N.to_nat a) = Some NEmpty).
+        { destruct (nth_error empty17 (N.to_nat a)) eqn:E.
+          - f_equal. eapply nth_error_empty17; eassumption.
+          - apply nth_error_None in E. pose proof (to_nat_lt17 a (valid_key_hd_le _ _ Hka)). lia. }
+        assert (Eb : nth_error cs1 (N.to_nat b) = Some NEmpty).
+        { rewrite Hn1. destruct (Nat.eqb_spec (N.to_nat b) (N.to_nat a)); [lia|].
+          destruct (nth_error empty17 (N.to_nat b)) eqn:E.
+          - f_equal. eapply nth_error_empty17; eassumption.
+          - apply nth_error_None in E. pose proof (to_nat_lt17 b (valid_key_hd_le _ _ Hk1)). lia. }
+        pose proof (count_set_nth _ _ _ _ _ Hs1 Ea) as C1.
+        pose proof (count_set_nth _ _ _ _ _ Hs2 Eb) as C2.
+        rewrite count_empty17 in C1. simpl in C1, C2.
+        assert (Ie1 : is_empty (inil n2 nv) = false) by (destruct (inil n2 nv); simpl; congruence).
+        assert (Ie2 : is_empty (inil k2 (NValue v)) = false) by (destruct k2; reflexivity).
+        rewrite Ie1 in C1. rewrite Ie2 in C2. lia. }
+    destruct p; [exact Hcf|]. simpl. inversion Hcf; subst.
+    apply can_ext; [assumption|discriminate|assumption].
+  - intros cs E. discriminate.
+Qed.
+
+(* ------------------------------------------------------------------ get / insert *)
+
+Section OpsProofs.
+  Variable resolve : list N -> list N -> option (node * list N).
+
+  (* (a)+(b) for get: no error, nothing changes, the value is [lk] *)
+  Lemma get_lk : forall fuel n path key,
+    (length key < fuel)%nat -> wfpos n key ->
+    get resolve fuel n path key = TOk (lk n key, n, false, []).
+  Proof.
+    induction fuel as [|f IH]; intros n path key Hf Hp; [lia|].
+    destruct Hp as [[-> [->|[v ->]]]|[Hk Hw]]; try reflexivity.
+    destruct n as [|v|nk c|cs|h].
+    - reflexivity.
+    - inversion Hw.
+    - cbn [get]. pose proof (is_prefix_strip nk key) as P. rewrite lk_short.
+      destruct (strip nk key) as [r|] eqn:E.
+      + destruct P as [P1 P2]. rewrite P1, P2. cbn [negb].
+        apply strip_some in E. subst key.
+        destruct (wfn_short_child _ _ _ Hw Hk) as (Hc & Hne & _).
+        rewrite (IH c (path ++ nk) r); [reflexivity| |assumption].
+        rewrite app_length in Hf. destruct nk; [congruence|]. simpl in Hf. lia.
+      + rewrite P. reflexivity.
+    - destruct key as [|k0 kr]; [destruct Hk|].
+      destruct (wfn_full_child _ _ _ Hw Hk) as (c & Hc & Hpc).
+      cbn [get]. unfold child. rewrite Hc.
+      rewrite (IH c _ kr); [|simpl in Hf; lia|assumption].
+      rewrite lk_full, Hc. reflexivity.
+    - inversion Hw.
+  Qed.
+
+  Lemma insert_short_unfold f nk nv prefix key value : key <> [] ->
+    insert resolve (S f) (NShort nk nv) prefix key value =
+      let m := prefix_len key nk in
+      if Nat.eqb m (length nk) then
+        match insert resolve f nv (prefix ++ firstn m key) (skipn m key) value with
+        | TOk (true, nn, ev) => TOk (true, NShort nk nn, ev)
+        | TOk (false, _, ev) => TOk (false, NShort nk nv, ev)
+        | TErr e => TErr e
+        end
+      else
+        match nth_error nk m, nth_error key m with
+        | Some a, Some b =>
+            let '(c1, ev1) := insert_nil (prefix ++ firstn (m + 1) nk) (skipn (m + 1) nk) nv in
+            let '(c2, ev2) := insert_nil (prefix ++ firstn (m + 1) key) (skipn (m + 1) key) value in
+            match set_child empty17 a c1 with
+            | None => TErr EPanic
+            | Some cs1 =>
+                match set_child cs1 b c2 with
+                | None => TErr EPanic
+                | Some cs2 =>
+                    if Nat.eqb m 0 then TOk (true, NFull cs2, ev1 ++ ev2)
+                    else TOk (true, NShort (firstn m key) (NFull cs2),
+                              ev1 ++ ev2 ++ [TIns (prefix ++ firstn m key)])
+                end
+            end
+        | _, _ => TErr EPanic
+        end.
+  Proof. intros H. destruct key; [congruence|reflexivity]. Qed.
+
+  (* (a)+(b)+(c) for insert *)
+  Lemma insert_spec : forall fuel n prefix key v,
+    (length key < fuel)%nat -> wfpos n key ->
+    exists d n' ev,
+      insert resolve fuel n prefix key (NValue v) = TOk (d, n', ev) /\ ins_post n key v d n'.
+  Proof.
+    induction fuel as [|f IH]; intros n prefix key v Hf Hp; [lia|].
+    destruct Hp as [[-> [->|[v0 ->]]]|[Hk Hw]].
+    - (* empty value slot *)
+      exists true, (NValue v), []. split; [reflexivity|]. unfold ins_post. repeat split; try discriminate.
+      + left. split; [reflexivity|apply vslot_value].
+      + intros k' Hne. rewrite lk_value, lk_empty. destruct k'; congruence.
+      + intros _. left. split; [reflexivity|apply vslot_value].
+    - (* occupied value slot *)
+      exists (negb (bytes_eqb v0 v)), (NValue v), []. split; [reflexivity|].
+      unfold ins_post. repeat split; try discriminate.
+      + left. split; [reflexivity|apply vslot_value].
+      + intros k' Hne. rewrite !lk_value. destruct k'; congruence.
+      + intros H. apply negb_false_iff, bytes_eqb_eq in H. subst. reflexivity.
+      + intros H. rewrite lk_value in H. inversion H; subst. rewrite bytes_eqb_refl. reflexivity.
+      + intros H. apply negb_false_iff, bytes_eqb_eq in H. subst. reflexivity.
+      + intros _. left. split; [reflexivity|apply vslot_value].
+    - pose proof (valid_key_nonempty _ Hk) as Hne.
+      destruct n as [|v0|nk nv|cs|h].
+      + (* nil *)
+        exists true, (NShort key (NValue v)), [TIns prefix].
+        split; [destruct key; [congruence|reflexivity]|]. unfold ins_post. repeat split; try discriminate.
+        * right. split; [assumption|apply wfn_leaf; assumption].
+        * rewrite lk_leaf, bytes_eqb_refl. reflexivity.
+        * intros k' Hn. rewrite lk_leaf, lk_empty. destruct (bytes_eqb k' key) eqn:B; [|reflexivity].
+          apply bytes_eqb_eq in B. congruence.
+        * intros _. right. split; [assumption|right; apply can_leaf; assumption].
+      + inversion Hw.
+      + (* short node *)
+        rewrite insert_short_unfold by assumption. cbv zeta.
+        destruct (prefix_len_split key nk) as (p & k' & n' & Hkey & Hnk & Hm & Hd).
+        rewrite Hm. subst key nk. destruct n' as [|a n2].
+        * (* whole node key matches *)
+          rewrite app_nil_r in *. rewrite Nat.eqb_refl, firstn_app_exact, skipn_app_exact.
+          destruct (wfn_short_child p nv k' Hw Hk) as (Hc & Hnp & Hnib).
+          destruct (IH nv (prefix ++ p) k' v) as (d & nn & ev & E & P1 & P2 & P3 & P4 & P5 & P6 & P7 & P8);
+            [rewrite app_length in Hf; destruct p; [congruence|simpl in Hf; lia]|exact Hc|].
+          rewrite E. destruct d.
+          -- exists true, (NShort p nn), ev. split; [reflexivity|]. unfold ins_post. repeat split; try discriminate.
+             ++ right. split; [assumption|]. eapply wfn_short_rebuild; eassumption.
+             ++ rewrite lk_short, strip_app_same. exact P3.
+             ++ intros k0 Hn. rewrite !lk_short. destruct (strip p k0) as [r|] eqn:S; [|reflexivity].
+                apply P4. intros ->. apply strip_some in S. congruence.
+             ++ rewrite lk_short, strip_app_same. apply P5.
+             ++ intros [[E0 _]|[_ [E0|Hcan]]]; [congruence|discriminate|].
+                right. split; [assumption|]. right. inversion Hcan; subst.
+                ** pose proof (valid_key_prefix_end _ _ H0 Hk) as ->.
+                   destruct P1 as [[_ [->|[v1 ->]]]|[[] _]]; [congruence|].
+                   apply can_leaf. assumption.
+                ** assert (Hk' : valid_key k').
+                   { destruct Hc as [[-> [?|[? ?]]]|[? _]]; [discriminate|discriminate|assumption]. }
+                   destruct (P8 _ eq_refl) as [cs' ->].
+                   destruct P7 as [[-> _]|[_ [?|?]]]; [right; auto|destruct Hk'|discriminate|].
+                   apply can_ext; assumption.
+          -- rewrite (P6 eq_refl) in *. exists false, (NShort p nv), ev. split; [reflexivity|].
+             apply ins_post_unchanged; [right; auto|].
+             rewrite lk_short, strip_app_same. exact P3.
+        * (* branch out *)
+          assert (Hk2 : exists b k2, k' = b :: k2 /\ a <> b).
+          { destruct k' as [|b k2]; [|eauto]. exfalso. rewrite app_nil_r in Hk. inversion Hw; subst.
+            - pose proof (valid_key_prefix_end _ _ Hk H0). discriminate.
+            - apply nibbles_app in H1 as [H1 _]. exact (valid_key_not_nibbles _ Hk H1). }
+          destruct Hk2 as (b & k2 & -> & Hab).
+          rewrite app_length. simpl length.
+          replace (Nat.eqb (length p) (length p + S (length n2))) with false
+            by (symmetry; apply Nat.eqb_neq; lia).
+          rewrite !nth_error_app_exact. simpl hd_error. cbv iota.
+          rewrite !firstn_app_succ, !skipn_app_succ, firstn_app_exact.
+          destruct (insert_nil (prefix ++ p ++ [a]) n2 nv) as [c1 ev1] eqn:E1.
+          destruct (insert_nil (prefix ++ p ++ [b]) k2 (NValue v)) as [c2 ev2] eqn:E2.
+          assert (c1 = inil n2 nv) by (rewrite <- (insert_nil_fst (prefix ++ p ++ [a])), E1; reflexivity).
+          assert (c2 = inil k2 (NValue v)) by (rewrite <- (insert_nil_fst (prefix ++ p ++ [b])), E2; reflexivity).
+          subst c1 c2.
+          destruct (branch_post p a n2 nv b k2 v Hw Hk Hab) as (cs1 & cs2 & S1 & S2 & Post).
+          rewrite S1, S2. destruct p as [|p0 p]; simpl Nat.eqb; cbv iota; eauto.
+      + (* full node *)
+        destruct key as [|k0 kr]; [congruence|].
+        destruct (wfn_full_child _ _ _ Hw Hk) as (c & Hc & Hpc).
+        cbn [insert]. unfold child. rewrite Hc.
+        destruct (IH c (prefix ++ [k0]) kr v) as (d & nn & ev & E & P1 & P2 & P3 & P4 & P5 & P6 & P7 & P8);
+          [simpl in Hf; lia|exact Hpc|].
+        rewrite E. destruct d.
+        * unfold set_child. destruct (set_nth_some (N.to_nat k0) nn cs) as [cs' Hs].
+          { apply nth_error_Some. congruence. }
+          rewrite Hs. exists true, (NFull cs'), ev. split; [reflexivity|].
+          pose proof (wfn_full_set _ _ _ _ _ Hw Hk P1 Hs) as Hw'.
+          unfold ins_post. repeat split; try discriminate.
+          -- right. split; assumption.
+          -- rewrite (lk_full_set _ _ _ _ k0 kr Hs), N.eqb_refl. exact P3.
+          -- intros k1 Hn. destruct k1 as [|x r]; [reflexivity|].
+             rewrite (lk_full_set _ _ _ _ x r Hs). destruct (N.eqb_spec x k0) as [->|Nx]; [|reflexivity].
+             rewrite lk_full, Hc. apply P4. congruence.
+          -- rewrite lk_full, Hc. apply P5.
+          -- intros [[E0 _]|[_ [E0|Hcan]]]; [discriminate|discriminate|].
+             right. split; [assumption|]. right.
+             pose proof (can_full_child _ _ _ _ Hcan Hk Hc) as Hcc. specialize (P7 Hcc).
+             destruct (set_nth_spec _ _ _ _ Hs) as [L Hn].
+             inversion Hcan; subst. inversion Hw'; subst. apply can_full; [assumption| |assumption|].
+             ++ intros i c0 Hc0 Hi. rewrite Hn in Hc0.
+                destruct (Nat.eqb_spec i (N.to_nat k0)) as [->|Ni]; [|eauto].
+                inversion Hc0; subst. destruct P7 as [[-> _]|[_ ?]]; [|assumption].
+                apply valid_key_cons in Hk as [[-> _]|[_ []]]. lia.
+             ++ pose proof (count_set_nth _ _ _ _ _ Hs Hc) as C.
+                assert (Ie : is_empty nn = false) by (destruct nn; simpl; congruence).
+                rewrite Ie in C. destruct (is_empty c); lia.
+          -- eauto.
+        * rewrite (P6 eq_refl) in *. exists false, (NFull cs), ev. split; [reflexivity|].
+          apply ins_post_unchanged; [right; auto|]. rewrite lk_full, Hc. exact P3.
+      + inversion Hw.
+  Qed.
+
+  (* ---------------------------------------------------------------- delete *)
+
+  Definition del_post (n : node) (key : list N) (d : bool) (n' : node) : Prop :=
+    wfpos n' key /\ lk n' key = None /\
+    (forall k', k' <> key -> lk n' k' = lk n k') /\
+    (d = false <-> lk n key = None) /\ (d = false -> n' = n) /\
+    (canpos n key -> canpos n' key) /\
+    (forall cs, n = NFull cs -> n' <> NEmpty).
+
+  Lemma del_post_unchanged n key :
+    wfpos n key -> lk n key = None -> del_post n key false n.
+  Proof. intros Hp Hl. unfold del_post. repeat split; auto. intros cs ->. discriminate. Qed.
+
+  Lemma lk_short_merge p ck cv k : lk (NShort (p ++ ck) cv) k = lk (NShort p (NShort ck cv)) k.
+  Proof. rewrite !lk_short, strip_app. destruct (strip p k); [rewrite lk_short|]; reflexivity. Qed.
+
+  (* the reduction of a full node with a single remaining child *)
+  Lemma collapse_post cs' j crem prefix ev :
+    wfn (NFull cs') -> nth_error cs' j = Some crem -> crem <> NEmpty ->
+    (forall j' c', nth_error cs' j' = Some c' -> j' <> j -> c' = NEmpty) ->
+    exists R ev',
+      (match child cs' (N.of_nat j) with
+       | None => TErr EPanic
+       | Some rem =>
+           if negb (N.eqb (N.of_nat j) 16) then
+             let r := match rem with
+                      | NHash h =>
+                          match resolve h (prefix ++ [N.of_nat j]) with
+                          | None => None
+                          | Some (rn, blob) => Some (rn, [TRes (prefix ++ [N.of_nat j]) blob])
+                          end
+                      | _ => Some (rem, [])
+                      end in
+             match r with
+             | None => TErr EMissing
+             | Some (NShort ck cv, ev1) =>
+                 TOk (true, NShort (N.of_nat j :: ck) cv,
+                      ev ++ ev1 ++ [TDel (prefix ++ [N.of_nat j])])
+             | Some (_, ev1) => TOk (true, NShort [N.of_nat j] rem, ev ++ ev1)
+             end
+           else TOk (true, NShort [N.of_nat j] rem, ev)
+       end) = TOk (true, R, ev') /\
+      wfn R /\ R <> NEmpty /\ (forall k, lk R k = lk (NFull cs') k) /\
+      (((j < 16)%nat -> can crem) -> can R).
+  Proof.
+    intros Hw Hc Hne Hoth.
+    assert (HL : forall k, lk (NShort [N.of_nat j] crem) k = lk (NFull cs') k).
+    { intros [|x r]; [reflexivity|]. rewrite lk_short, lk_full. simpl strip.
+      destruct (N.eqb_spec (N.of_nat j) x) as [<-|Nx].
+      - rewrite Nat2N.id, Hc. reflexivity.
+      - destruct (nth_error cs' (N.to_nat x)) as [c'|] eqn:E; [|reflexivity].
+        rewrite (Hoth _ _ E); [rewrite lk_empty; reflexivity|lia]. }
+    assert (Hj : (j < 17)%nat).
+    { inversion Hw; subst. rewrite <- H0. apply nth_error_Some. congruence. }
+    unfold child. rewrite Nat2N.id, Hc. inversion Hw; subst.
+    destruct (N.eqb_spec (N.of_nat j) 16) as [E16|N16]; cbn [negb].
+    - assert (j = 16%nat) by lia. subst j. destruct (H2 _ Hc) as [->|[v0 ->]]; [congruence|].
+      exists (NShort [N.of_nat 16] (NValue v0)), ev. split; [reflexivity|].
+      split; [apply wfn_leaf; reflexivity|]. split; [discriminate|]. split; [exact HL|].
+      intros _. apply can_leaf. reflexivity.
+    - assert (Hj16 : (j < 16)%nat) by lia. pose proof (H1 _ _ Hc Hj16) as Hwc.
+      assert (Hnib : nibbles [N.of_nat j]) by (constructor; [lia|constructor]).
+      destruct crem as [|v0|ck cv|l|h]; [congruence|inversion Hwc| | |inversion Hwc].
+      + exists (NShort (N.of_nat j :: ck) cv), (ev ++ [] ++ [TDel (prefix ++ [N.of_nat j])]).
+        split; [reflexivity|]. split; [apply (wfn_short_prepend [N.of_nat j]); assumption|].
+        split; [discriminate|]. split.
+        * intros k. rewrite <- HL. apply (lk_short_merge [N.of_nat j]).
+        * intros Hcan. apply (can_short_prepend [N.of_nat j]); auto.
+      + exists (NShort [N.of_nat j] (NFull l)), (ev ++ []).
+        split; [reflexivity|]. split; [apply wfn_ext; [assumption|discriminate|assumption]|].
+        split; [discriminate|]. split; [exact HL|].
+        intros Hcan. apply can_ext; [assumption|discriminate|auto].
+  Qed.
+
+  Lemma delete_spec : forall fuel n prefix key,
+    (length key < fuel)%nat -> wfpos n key ->
+    exists d n' ev,
+      delete resolve fuel n prefix key = TOk (d, n', ev) /\ del_post n key d n'.
+  Proof.
+    induction fuel as [|f IH]; intros n prefix key Hf Hp; [lia|].
+    destruct Hp as [[-> [->|[v0 ->]]]|[Hk Hw]].
+    - exists false, NEmpty, []. split; [reflexivity|].
+      apply del_post_unchanged; [left; split; [reflexivity|apply vslot_empty]|reflexivity].
+    - exists true, NEmpty, []. split; [reflexivity|]. unfold del_post. repeat split; try discriminate.
+      + left. split; [reflexivity|apply vslot_empty].
+      + intros k' Hn. rewrite lk_value, lk_empty. destruct k'; congruence.
+      + intros _. left. split; [reflexivity|apply vslot_empty].
+    - pose proof (valid_key_nonempty _ Hk) as Hne.
+      destruct n as [|v0|nk nv|cs|h].
+      + exists false, NEmpty, []. split; [reflexivity|].
+        apply del_post_unchanged; [right; auto|reflexivity].
+      + inversion Hw.
+      + (* short node *)
+        cbn [delete].
+        destruct (prefix_len_split key nk) as (p & k' & n' & Hkey & Hnk & Hm & Hd).
+        rewrite Hm. subst key nk. destruct n' as [|a n2].
+        * rewrite app_nil_r in *. rewrite Nat.ltb_irrefl, firstn_app_exact, skipn_app_exact.
+          destruct k' as [|b k2].
+          -- (* the leaf itself *)
+             rewrite app_nil_r in *. rewrite Nat.eqb_refl.
+             assert (exists v0, nv = NValue v0) as [v0 ->].
+             { inversion Hw; subst; [eauto|]. exfalso. exact (valid_key_not_nibbles _ Hk H1). }
+             exists true, NEmpty, [TDel prefix]. split; [reflexivity|].
+             unfold del_post. repeat split; try discriminate.
+             ++ right. split; [assumption|constructor].
+             ++ intros k' Hn. rewrite lk_leaf, lk_empty. destruct (bytes_eqb k' p) eqn:B; [|reflexivity].
+                apply bytes_eqb_eq in B. congruence.
+             ++ rewrite lk_leaf, bytes_eqb_refl. discriminate.
+             ++ intros _. right. split; [assumption|left; reflexivity].
+          -- (* descend *)
+             rewrite app_length. simpl length.
+             replace (Nat.eqb (length p) (length p + S (length k2))) with false
+               by (symmetry; apply Nat.eqb_neq; lia).
+             destruct (wfn_short_child p nv (b :: k2) Hw Hk) as (Hc & Hnp & Hnib).
+             specialize (Hnib ltac:(discriminate)).
+             destruct (IH nv (prefix ++ p) (b :: k2)) as (d & nn & ev & E & Q1 & Q2 & Q3 & Q4 & Q5 & Q6 & Q7);
+               [rewrite app_length in Hf; destruct p; [congruence|simpl in Hf; simpl; lia]|exact Hc|].
+             rewrite E. destruct d.
+             ++ assert (Hwn : wfn nn) by (destruct Q1 as [[? _]|[_ ?]]; [discriminate|assumption]).
+                (* facts about NShort p nn, shared by the merged and the plain result *)
+                assert (G2 : lk (NShort p nn) (p ++ b :: k2) = None)
+                  by (rewrite lk_short, strip_app_same; exact Q2).
+                assert (G3 : forall k0, k0 <> p ++ b :: k2 -> lk (NShort p nn) k0 = lk (NShort p nv) k0).
+                { intros k0 Hn. rewrite !lk_short. destruct (strip p k0) as [r|] eqn:S; [|reflexivity].
+                  apply Q3. intros ->. apply strip_some in S. congruence. }
+                assert (G4 : true = false <-> lk (NShort p nv) (p ++ b :: k2) = None)
+                  by (rewrite lk_short, strip_app_same; exact Q4).
+                assert (G6 : canpos (NShort p nv) (p ++ b :: k2) -> can nn /\ exists cs, nv = NFull cs).
+                { intros [[E0 _]|[_ [E0|Hcan]]]; [destruct p; discriminate|discriminate|].
+                  inversion Hcan; subst; [exfalso; exact (valid_key_not_nibbles _ H0 Hnib)|].
+                  split; [|eauto]. specialize (Q7 _ eq_refl).
+                  destruct Q6 as [[E0 _]|[_ [?|?]]]; [|discriminate|congruence|assumption].
+                  right. split; [|right; assumption]. destruct Hc as [[? _]|[? _]]; [discriminate|assumption]. }
+                destruct nn as [|v1|ck cv|l|h].
+                ** exists true, (NShort p NEmpty), ev. split; [reflexivity|].
+                   unfold del_post. repeat split; try discriminate; auto.
+                   --- right. split; [assumption|]. apply wfn_ext; assumption.
+                   --- apply G4.
+                   --- intros Hcp. destruct (G6 Hcp) as [Hcn _]. inversion Hcn.
+                ** inversion Hwn.
+                ** exists true, (NShort (p ++ ck) cv), (ev ++ [TDel (prefix ++ p)]). split; [reflexivity|].
+                   unfold del_post. repeat split; try discriminate.
+                   --- right. split; [assumption|]. apply wfn_short_prepend; assumption.
+                   --- rewrite lk_short_merge. exact G2.
+                   --- intros k0 Hn. rewrite lk_short_merge. apply G3. exact Hn.
+                   --- apply G4.
+                   --- intros Hcp. destruct (G6 Hcp) as [Hcn _]. right. split; [assumption|]. right.
+                       apply can_short_prepend; assumption.
+                ** exists true, (NShort p (NFull l)), ev. split; [reflexivity|].
+                   unfold del_post. repeat split; try discriminate; auto.
+                   --- right. split; [assumption|]. apply wfn_ext; assumption.
+                   --- apply G4.
+                   --- intros Hcp. destruct (G6 Hcp) as [Hcn _]. right. split; [assumption|]. right.
+                       apply can_ext; assumption.
+                ** inversion Hwn.
+             ++ rewrite (Q5 eq_refl) in *. exists false, (NShort p nv), ev. split; [reflexivity|].
+                apply del_post_unchanged; [right; auto|]. rewrite lk_short, strip_app_same. exact Q2.
+        * (* key mismatch: nothing to delete *)
+          rewrite app_length. simpl length.
+          replace (Nat.ltb (length p) (length p + S (length n2))) with true
+            by (symmetry; apply Nat.ltb_lt; lia).
+          exists false, (NShort (p ++ a :: n2) nv), []. split; [reflexivity|].
+          apply del_post_unchanged; [right; auto|].
+          rewrite lk_short, strip_app, strip_app_same. destruct k' as [|b k2]; [reflexivity|].
+          rewrite strip_cons_neq; [reflexivity|congruence].
+      + (* full node *)
+        destruct key as [|k0 kr]; [congruence|].
+        destruct (wfn_full_child _ _ _ Hw Hk) as (c & Hc & Hpc).
+        cbn [delete]. unfold child at 1. rewrite Hc.
+        destruct (IH c (prefix ++ [k0]) kr) as (d & nn & ev & E & Q1 & Q2 & Q3 & Q4 & Q5 & Q6 & Q7);
+          [simpl in Hf; lia|exact Hpc|].
+        rewrite E. destruct d.
+        2:{ rewrite (Q5 eq_refl) in *. exists false, (NFull cs), ev. split; [reflexivity|].
+            apply del_post_unchanged; [right; auto|]. rewrite lk_full, Hc. exact Q2. }
+        unfold set_child. destruct (set_nth_some (N.to_nat k0) nn cs) as [cs' Hs].
+        { apply nth_error_Some. congruence. }
+        rewrite Hs. destruct (set_nth_spec _ _ _ _ Hs) as [L Hn].
+        pose proof (wfn_full_set _ _ _ _ _ Hw Hk Q1 Hs) as Hw'.
+        assert (A1 : lk (NFull cs') (k0 :: kr) = None)
+          by (rewrite (lk_full_set _ _ _ _ k0 kr Hs), N.eqb_refl; exact Q2).
+        assert (A2 : forall k1, k1 <> k0 :: kr -> lk (NFull cs') k1 = lk (NFull cs) k1).
+        { intros k1 Hn1. destruct k1 as [|x r]; [reflexivity|].
+          rewrite (lk_full_set _ _ _ _ x r Hs). destruct (N.eqb_spec x k0) as [->|Nx]; [|reflexivity].
+          rewrite lk_full, Hc. apply Q3. congruence. }
+        assert (A4 : true = false <-> lk (NFull cs) (k0 :: kr) = None)
+          by (rewrite lk_full, Hc; exact Q4).
+        assert (Hcne : is_empty c = false).
+        { destruct c; try reflexivity. rewrite lk_empty in Q4. destruct Q4 as [_ Q4]. specialize (Q4 eq_refl). discriminate. }
+        pose proof (count_set_nth _ _ _ _ _ Hs Hc) as Cnt. rewrite Hcne in Cnt.
+        (* the plain result NFull cs' *)
+        assert (HF : (can (NFull cs) -> (2 <= count cs')%nat) -> del_post (NFull cs) (k0 :: kr) true (NFull cs')).
+        { intros Hcount. unfold del_post. repeat split; try discriminate; auto.
+          - right. split; assumption.
+          - apply A4.
+          - intros [[E0 _]|[_ [E0|Hcan]]]; [discriminate|discriminate|].
+            right. split; [assumption|]. right.
+            pose proof (can_full_child _ _ _ _ Hcan Hk Hc) as Hcc. specialize (Q6 Hcc).
+            specialize (Hcount Hcan).
+            inversion Hcan; subst. inversion Hw'; subst. apply can_full; [assumption| |assumption|assumption].
+            intros i c0 Hc0 Hi. rewrite Hn in Hc0.
+            destruct (Nat.eqb_spec i (N.to_nat k0)) as [->|Ni]; [|eauto].
+            inversion Hc0; subst. destruct Q6 as [[-> _]|[_ ?]]; [|assumption].
+            apply valid_key_cons in Hk as [[-> _]|[_ []]]. lia. }
+        destruct (is_empty nn) eqn:En; cbn [negb].
+        * destruct nn; try discriminate. simpl in Cnt.
+          pose proof (single_child_from_spec cs' 0) as SC. unfold single_child.
+          destruct (single_child_from 0 cs') as [[pos|]|].
+          -- destruct SC as [C1 (j & crem & -> & Hj & Hjne & Hoth)]. rewrite N.add_0_l.
+             destruct (collapse_post cs' j crem prefix ev Hw' Hj Hjne Hoth)
+               as (R & ev' & ER & R1 & R2 & R3 & R4).
+             exists true, R, ev'. split; [exact ER|].
+             unfold del_post. repeat split; try discriminate; auto.
+             ++ right. split; assumption.
+             ++ rewrite R3. exact A1.
+             ++ intros k1 Hn1. rewrite R3. apply A2. exact Hn1.
+             ++ apply A4.
+             ++ intros [[E0 _]|[_ [E0|Hcan]]]; [discriminate|discriminate|].
+                right. split; [assumption|]. right. apply R4. intros Hj16.
+                assert (Hjk : j <> N.to_nat k0).
+                { intros ->. rewrite Hn, Nat.eqb_refl in Hj. congruence. }
+                rewrite Hn in Hj. destruct (Nat.eqb_spec j (N.to_nat k0)); [congruence|].
+                inversion Hcan; subst. destruct (H1 _ _ Hj Hj16); [congruence|assumption].
+          -- exists true, (NFull cs'), ev. split; [reflexivity|]. apply HF. intros _. exact SC.
+          -- exists true, (NFull cs'), ev. split; [reflexivity|]. apply HF. intros Hcan.
+             inversion Hcan; subst. lia.
+        * exists true, (NFull cs'), ev. split; [reflexivity|]. apply HF. intros Hcan.
+          inversion Hcan; subst. lia.
+      + inversion Hw.
+  Qed.
+End OpsProofs.
